@@ -356,7 +356,8 @@ def run(ctx, with_contradiction=True):
     rep.check(bool(g1), 'R-C15-3', 'R-C15-3/degree-valid', 'an invalid degree byte is rejected', 'no guard rejects an invalid degree byte', ctx.where(dec))
     ne = find(lambda a: a[0] == 'cmp' and a[1] == 'Le' and a[2] == '1' and a[3].startswith('len('))
     rep.check(len(ne) >= 2, 'R-C15-3', 'R-C15-3/non-empty-LR', 'empty L / R vectors are rejected (%d guards)' % len(ne), 'only %d non-emptiness guards on L / R' % len(ne), ctx.where(dec))
-    lo = find(lambda a: a[0] == 'cmp' and 'into_buffer' in ''.join(a[2:4]))
+    # the leftover buffer is empty: `len() == 0`, `is_empty()`, or `next().is_none()` on it
+    lo = find(lambda a: (a[0] == 'cmp' and 'into_buffer' in ''.join(a[2:4])) or (a[0] == 'fail' and a[1].startswith('each(into_buffer(')))
     rm = find(lambda a: a[0] == 'cmp' and 'remainder' in ''.join(a[2:4]))
     if cursor_style and not lo and not rm:
         # one test covers both: whatever the cursor has not consumed must be empty
